@@ -55,3 +55,7 @@ package pool
 //@   ensures shard: SI(p, i0, x0, s0)
 //@   split shard: p.stepSize pow2 0 62
 //@   ensures once: nemitted() <= 1
+
+// no mutable package-level state (C12, and every property whose plan touches this package)
+//@ property C12
+//@ globals immutable
